@@ -1,7 +1,7 @@
 #!/bin/sh
 # re-run every seeded change (in scratch worktrees, 5 at a time) against the checks recorded in its meta.json plus its own property
 cd /verif
-ls -d seeded/*/ | xargs -P 5 -I{} sh -c '
+ls -d seeded/*/ | grep -v "/_" | xargs -P 5 -I{} sh -c '
   d={}; id=$(basename $d)
   props=$(python3 -c "import json; m=json.load(open(\"$d/meta.json\")); print(\" \".join(sorted(set(m[\"detected_by\"]+[m[\"property\"]]))))")
   r=$(JOBS=3 tools/evalmut_wt.sh $id /verif/$d/patch.diff $props 2>&1 | tail -1)
